@@ -216,7 +216,9 @@ FUNCTIONS.update({
     cls='MuxSocketTransportSink', params={'msg_properties': 'Props'}, returns='bool',
     requires=['MuxInv(self)', 'allocated(msg_properties)',
               # the request has not been answered yet (an answered request's tag slot holds None)
-              'implies("__Tag" in msg_properties, msg_properties["__Tag"] is not None)'],
+              'implies("__Tag" in msg_properties, msg_properties["__Tag"] is not None)',
+              # ... and not been written yet: this is the decision *before* the write (a tag given back here was never on the wire)
+              'not msg_properties.g_sent'],
     ensures=['MuxInv(self)',
              # C12: dropped (True) exactly when the caller already holds TimeoutError
              'result == old(("__Deadline_Event" in msg_properties) and msg_properties["__Deadline_Event"] is not None and truthy(msg_properties["__Deadline_Event"].value))',
@@ -293,14 +295,15 @@ FUNCTIONS.update({
     yields=[{'at': 'self._send_queue.get()', 'rely': ['allocated(self._on_faulted) and allocated(self._socket) and allocated(self._send_queue)']},
             {'at': 'self._socket.write(payload)', 'rely': ['allocated(self._on_faulted) and allocated(self._socket) and allocated(self._send_queue)']}],
     ghost=[
-      {'after': 'payload, dct = self._send_queue.get()', 'do': ['g_decided = False', 'assume(allocated(dct) and implies("__Tag" in dct, dct["__Tag"] is not None))']},
+      {'after': 'payload, dct = self._send_queue.get()', 'do': ['g_decided = False', 'assume(allocated(dct) and implies("__Tag" in dct, dct["__Tag"] is not None) and not dct.g_sent)']},
+      {'after': 'self._socket.write(payload)', 'do': ['dct.g_sent = True']},
       {'before': 'if self._HandleTimeout(dct):', 'do': ['g_decided = True']},
       # C12: a frame is written only after _HandleTimeout said the caller has not timed out (and has
       # armed the discard handler for it)
       {'before': 'self._socket.write(payload)', 'do': ['prove(g_decided, "timeout-decision-before-every-write")']},
       {'before': 'break', 'do': ['prove(self._state == ChannelState.Closed, "failure-shuts-the-transport-down")']},
     ],
-    props=['C08', 'C12'],
+    props=['C08', 'C12', 'C11', 'C02'],
   ),
 
   # the only reader: frame by frame; any failure (error, EOF) shuts the transport down and ends the loop
